@@ -2,7 +2,7 @@
    Only statements closed by [exact]; the lemmas live in Proofs/Stores.v, the executable
    models (memory store, OCI layout store, abstract specification) in Model/Stores.v. *)
 From Oras Require Import Base.Prelude Generated.GC06 Model.Stores Model.StoresConc Model.StoresConcOci Model.StoresConcFile
-     Proofs.Stores Proofs.StoresConc Proofs.StoresConcOci Proofs.StoresConcOci2 Proofs.StoresConcFile.
+     Proofs.Stores Proofs.StoresConc Proofs.StoresConcOci Proofs.StoresConcOci2 Proofs.StoresConcFile Proofs.StoresFile.
 From Coq Require Import Permutation.
 
 (* For every history, the memory store (cas.Memory + resolver.Memory + graph.Memory)
@@ -295,6 +295,37 @@ Theorem C06_fetch_matches_digest_file_partial : forall ig ov h d hash len,
   snd (file_step true ig ov s (Fetch d)) = FO (OBytes hash len) -> hash = d_dig d.
 Proof. exact file_fetch_matches. Qed.
 Print Assumptions C06_fetch_matches_digest_file_partial.
+
+(* Fetch returns the pushed content for ever: after a successful Push (named, or unnamed
+   without IgnoreNoName, which discards the content), whatever follows -- titled successors
+   and restoreDuplicates included, the aliasing name excluded -- Fetch of that descriptor
+   succeeds and returns bytes that hash to its digest *)
+Theorem C06_fetch_returns_pushed_file_partial : forall ig ov h1 d c h2,
+  Forall no_alias h1 -> no_alias (Push d c) -> Forall no_alias h2 -> (ig = false \/ d_name d <> 0) ->
+  let s := fst (runf (file_step true ig ov) file_init h1) in
+  snd (file_step true ig ov s (Push d c)) = FO OOk ->
+  let s2 := fst (runf (file_step true ig ov) (fst (file_step true ig ov s (Push d c))) h2) in
+  exists len, snd (file_step true ig ov s2 (Fetch d)) = FO (OBytes (d_dig d) len).
+Proof. exact file_fetch_returns_pushed. Qed.
+Print Assumptions C06_fetch_returns_pushed_file_partial.
+
+(* the fallback content map is immutable: an unnamed re-push is already-exists and a no-op *)
+Theorem C06_unnamed_repush_refused_file : forall fx ov d c h2 s c',
+  d_name d = 0 ->
+  snd (file_step fx false ov s (Push d c)) = FO OOk ->
+  let s2 := fst (runf (file_step fx false ov) (fst (file_step fx false ov s (Push d c))) h2) in
+  file_step fx false ov s2 (Push d c') = (s2, FO (OErr EAlreadyExists)).
+Proof. exact file_unnamed_repush_refused. Qed.
+Print Assumptions C06_unnamed_repush_refused_file.
+
+(* Resolve returns the descriptor most recently tagged *)
+Theorem C06_resolve_latest_file : forall fx ig ov s d r h2,
+  r <> REmpty ->
+  snd (file_step fx ig ov s (Tag d r)) = FO OOk -> forallb (fun o => negb (tags_ref r o)) h2 = true ->
+  snd (file_step fx ig ov (fst (runf (file_step fx ig ov) (fst (file_step fx ig ov s (Tag d r))) h2)) (Resolve r))
+  = FO (ODesc d).
+Proof. exact file_resolve_latest. Qed.
+Print Assumptions C06_resolve_latest_file.
 
 (* repaired code: a refused or failed operation leaves the whole state (names,
    digestToPath, files, fallback, tags, graph) unchanged -- in histories without the
